@@ -52,8 +52,25 @@ const (
 	c18Cond            // if tX.out > 0 {f: Y}      refs[0] = guard (no data), refs[1] = data
 	c18Group           // f: [for k, v in gJ {v.out}]
 	c18After           // $after: [tX, tY]          no data
+	c18ListDirect      // f: tX.lst                 (list valued result)
+	c18ListNested      // f: deep: items: tX.lst
+	c18ListLen         // f: len(tX.lst)
+	c18ListFor         // f: [for x in tX.lst {x}]
+	c18AfterList       // $after: tX.lst           no data
 	c18nShapes
+	c18AfterGroup = 100 // $after: [for k, v in gJ {v.out}]   no data (only for group targets)
 )
+
+// the list valued result of a task whose scalar result is n: 1 + n%3 elements summing to n
+func c18Lst(n int) []int {
+	l := 1 + ((n%3)+3)%3
+	out := make([]int, l)
+	out[0] = n - (l - 1)
+	for i := 1; i < l; i++ {
+		out[i] = 1
+	}
+	return out
+}
 
 type c18Field struct {
 	shape int
@@ -71,6 +88,9 @@ type c18WF struct {
 	aux    [][]c18Ref // aux field j = sum of refs (tasks and lower-numbered aux)
 	guards []int      // guard task of group j
 	shape  string
+	// presentation only (the denoted dependencies are the same):
+	auxList   []bool // aux field j is a list  [for x in tX.lst {x}]
+	groupList []bool // group j appears through  for k, x in tG.lst if k == 0 {...}
 }
 
 func (w *c18WF) refs(i int) []c18Ref {
@@ -225,9 +245,11 @@ func (w *c18WF) expected() (out []int, in []int) {
 		s := 0
 		for _, f := range w.tasks[i].fields {
 			switch f.shape {
-			case c18After:
+			case c18After, c18AfterList, c18AfterGroup:
 			case c18Cond:
 				s += refVal(f.refs[1])
+			case c18ListLen:
+				s += len(c18Lst(refVal(f.refs[0])))
 			default:
 				for _, r := range f.refs {
 					s += refVal(r)
@@ -294,6 +316,10 @@ func (w *c18WF) source() string {
 					parts = append(parts, w.refExpr(r, -1, false))
 				}
 			}
+			if j < len(w.auxList) && w.auxList[j] {
+				fmt.Fprintf(&sb, "\tm%d: [for x in %s {x}]\n", j, strings.TrimSuffix(parts[0], ".out")+".lst")
+				continue
+			}
 			fmt.Fprintf(&sb, "\tm%d: %s\n", j, strings.Join(parts, " + "))
 		}
 		sb.WriteString("}\n")
@@ -301,12 +327,14 @@ func (w *c18WF) source() string {
 	sb.WriteString("root: {\n")
 	emitTask := func(i int, ind string) {
 		t := w.tasks[i]
-		fmt.Fprintf(&sb, "%s%s: {\n%s\t$id: \"w\"\n%s\tbase: %d\n%s\tout: int\n", ind, w.taskName(i), ind, ind, t.base, ind)
+		fmt.Fprintf(&sb, "%s%s: {\n%s\t$id: \"w\"\n%s\tbase: %d\n%s\tout: int\n%s\tlst: [...int]\n", ind, w.taskName(i), ind, ind, t.base, ind, ind)
 		var after []string
 		var ins []string
+		var afterExprs []string
 		for k, f := range t.fields {
 			name := fmt.Sprintf("f%d", k)
 			ex := func(n int) string { return w.refExpr(f.refs[n], i, true) }
+			lst := func(n int) string { return strings.TrimSuffix(ex(n), ".out") + ".lst" }
 			switch f.shape {
 			case c18Direct:
 				ins = append(ins, fmt.Sprintf("%s: %s", name, ex(0)))
@@ -335,6 +363,18 @@ func (w *c18WF) source() string {
 					e := w.refExpr(r, i, true)
 					after = append(after, strings.TrimSuffix(e, ".out"))
 				}
+			case c18ListDirect:
+				ins = append(ins, fmt.Sprintf("%s: %s", name, lst(0)))
+			case c18ListNested:
+				ins = append(ins, fmt.Sprintf("%s: deep: items: %s", name, lst(0)))
+			case c18ListLen:
+				ins = append(ins, fmt.Sprintf("%s: len(%s)", name, lst(0)))
+			case c18ListFor:
+				ins = append(ins, fmt.Sprintf("%s: [for x in %s {x}]", name, lst(0)))
+			case c18AfterList:
+				afterExprs = append(afterExprs, lst(0))
+			case c18AfterGroup:
+				afterExprs = append(afterExprs, fmt.Sprintf("[for k, v in g%d {v.out}]", f.refs[0].idx))
 			}
 		}
 		if len(ins) > 0 {
@@ -343,6 +383,10 @@ func (w *c18WF) source() string {
 				fmt.Fprintf(&sb, "%s\t\t%s\n", ind, s)
 			}
 			fmt.Fprintf(&sb, "%s\t}\n", ind)
+		}
+		// lists of task outputs get their own fields
+		for k, e := range afterExprs {
+			fmt.Fprintf(&sb, "%s\t$after%d: %s\n", ind, k+1, e)
 		}
 		if len(after) == 1 {
 			fmt.Fprintf(&sb, "%s\t$after: %s\n", ind, after[0])
@@ -357,7 +401,12 @@ func (w *c18WF) source() string {
 		}
 	}
 	for j, g := range w.guards {
-		fmt.Fprintf(&sb, "\tg%d: {\n\t\tif %s > 0 {\n", j, w.refExpr(c18Ref{'t', g}, -1, true))
+		if j < len(w.groupList) && w.groupList[j] {
+			fmt.Fprintf(&sb, "\tg%d: {\n\t\tfor k, x in %s if k == 0 {\n", j,
+				strings.TrimSuffix(w.refExpr(c18Ref{'t', g}, -1, true), ".out")+".lst")
+		} else {
+			fmt.Fprintf(&sb, "\tg%d: {\n\t\tif %s > 0 {\n", j, w.refExpr(c18Ref{'t', g}, -1, true))
+		}
 		for _, m := range w.members(j) {
 			emitTask(m, "\t\t\t")
 		}
@@ -469,6 +518,9 @@ func c18Gen(r *Rng, maxN int) *c18WF {
 			}
 		}
 		w.shape += "+dynamic"
+		for range w.guards {
+			w.groupList = append(w.groupList, r.Chance(1, 2))
+		}
 	}
 	// intermediate fields
 	if r.Chance(1, 2) {
@@ -476,9 +528,21 @@ func c18Gen(r *Rng, maxN int) *c18WF {
 		for j := 0; j < na; j++ {
 			var rs []c18Ref
 			k := 1 + r.Intn(2)
+			isList := r.Chance(1, 3)
+			if isList {
+				k = 1
+			}
+			w.auxList = append(w.auxList, isList)
 			for x := 0; x < k; x++ {
-				if j > 0 && r.Chance(1, 3) {
-					rs = append(rs, c18Ref{'a', r.Intn(j)})
+				lower := -1
+				if j > 0 && !isList && r.Chance(1, 3) {
+					lower = r.Intn(j)
+					if w.auxList[lower] {
+						lower = -1
+					}
+				}
+				if lower >= 0 {
+					rs = append(rs, c18Ref{'a', lower})
 				} else {
 					t := r.Intn(n)
 					if w.tasks[t].group >= 0 { // aux fields refer to static tasks only
@@ -513,7 +577,11 @@ func c18Gen(r *Rng, maxN int) *c18WF {
 				if w.guards[ref.idx] == i { // a guard must not wait for its own group
 					continue
 				}
-				w.tasks[i].fields = append(w.tasks[i].fields, c18Field{c18Group, []c18Ref{ref}})
+				gs := c18Group
+				if r.Chance(1, 4) {
+					gs = c18AfterGroup
+				}
+				w.tasks[i].fields = append(w.tasks[i].fields, c18Field{gs, []c18Ref{ref}})
 				continue
 			}
 			shape := r.Intn(c18nShapes)
@@ -536,7 +604,7 @@ func c18Gen(r *Rng, maxN int) *c18WF {
 							back = true
 						}
 					}
-					if !back {
+					if !back && !w.auxList[j] {
 						second, ok = c18Ref{'a', j}, true
 					}
 				}
@@ -613,7 +681,8 @@ type c18Plan struct {
 	abort    bool
 	cancelID int // -1: none; the runner of this task cancels the context before returning
 	nofill   map[int]bool
-	cmdCfg   bool // Config as cmd/cue uses it (InferTasks, IgnoreConcrete)
+	cmdCfg   bool // Config as cmd/cue/cmd/custom.go and internal/task build it (Root, InferTasks, IgnoreConcrete)
+	primary  bool // emits the per-workflow O-level ops
 }
 
 type c18Run struct {
@@ -762,7 +831,7 @@ func (ru *c18Run) taskFunc(v cue.Value) (flow.Runner, error) {
 		out := int(base) + sum
 		if id == ru.plan.failID {
 			if ru.plan.failFill {
-				t.Fill(map[string]any{"out": out})
+				t.Fill(map[string]any{"out": out, "lst": c18Lst(out)})
 			}
 			ru.log(c18Event{kind: 'E', idx: t.Index(), id: id, ok: false, fill: ru.plan.failFill})
 			if ru.plan.abort {
@@ -772,7 +841,7 @@ func (ru *c18Run) taskFunc(v cue.Value) (flow.Runner, error) {
 		}
 		fill := !ru.plan.nofill[id]
 		if fill {
-			if err := t.Fill(map[string]any{"out": out}); err != nil {
+			if err := t.Fill(map[string]any{"out": out, "lst": c18Lst(out)}); err != nil {
 				fill = false
 			}
 		}
@@ -992,7 +1061,8 @@ func c18CanonJSON(v cue.Value) (string, error) {
 }
 
 // judge one run: ops + direct predicates
-func c18Judge(c *Cfg, w *c18WF, plan *c18Plan, ru *c18Run, res *c18Result, primary bool) {
+func c18Judge(c *Cfg, w *c18WF, plan *c18Plan, ru *c18Run, res *c18Result) {
+	primary := plan.primary
 	enc := w.encode()
 	replay := map[string]any{"workflow": enc, "cue": w.source(), "fail": plan.failID, "cancel": plan.cancelID,
 		"cmdcfg": plan.cmdCfg, "durations_us": func() []int64 {
@@ -1014,7 +1084,12 @@ func c18Judge(c *Cfg, w *c18WF, plan *c18Plan, ru *c18Run, res *c18Result, prima
 	}
 	replay["trace"] = c18TraceLine(res.events)
 	plain := plan.failID < 0 && plan.cancelID < 0
-	c.Count("outcome/" + strings.SplitN(res.rkind, ":", 2)[0])
+	cfgName := "default"
+	if plan.cmdCfg {
+		cfgName = "production"
+	}
+	replay["config"] = cfgName
+	c.Count("outcome/" + cfgName + "/" + strings.SplitN(res.rkind, ":", 2)[0])
 
 	// final states by generator id
 	finalState := map[int]flow.State{}
@@ -1050,10 +1125,10 @@ func c18Judge(c *Cfg, w *c18WF, plan *c18Plan, ru *c18Run, res *c18Result, prima
 	// (1) dependencies completed successfully before the start, and visible
 	for id, sp := range startPos {
 		need := map[int]bool{}
-		if !plan.cmdCfg {
-			for _, d := range w.deps(id) {
-				need[d] = true
-			}
+		// the references the description makes must be honoured under either configuration:
+		// IgnoreConcrete may only drop a reference once its target can no longer change
+		for _, d := range w.deps(id) {
+			need[d] = true
 		}
 		for _, d := range finalDeps[id] {
 			need[d] = true
@@ -1164,7 +1239,7 @@ func c18Judge(c *Cfg, w *c18WF, plan *c18Plan, ru *c18Run, res *c18Result, prima
 					if !exp.LookupPath(p).Exists() {
 						continue
 					}
-					exp = exp.FillPath(p, map[string]any{"out": res.filled[id]})
+					exp = exp.FillPath(p, map[string]any{"out": res.filled[id], "lst": c18Lst(res.filled[id])})
 					delete(pending, id)
 				}
 			}
@@ -1179,7 +1254,7 @@ func c18Judge(c *Cfg, w *c18WF, plan *c18Plan, ru *c18Run, res *c18Result, prima
 		return
 	}
 	// ---- ops ----
-	if plain && !plan.cmdCfg && len(plan.nofill) == 0 {
+	if plain && len(plan.nofill) == 0 {
 		// outcome
 		ans := res.rkind
 		if res.rkind == "ok" {
@@ -1197,7 +1272,7 @@ func c18Judge(c *Cfg, w *c18WF, plan *c18Plan, ru *c18Run, res *c18Result, prima
 			ans = "ok " + c18Ints(term) + " inst=" + c18Ints(inst)
 		}
 		c.Op("O", "run "+enc, ans)
-		if res.rkind == "ok" && primary {
+		if res.rkind == "ok" && primary && !plan.cmdCfg {
 			found := map[int][]int{}
 			all := map[int][]int{}
 			for id := range w.tasks {
@@ -1218,7 +1293,7 @@ func c18Judge(c *Cfg, w *c18WF, plan *c18Plan, ru *c18Run, res *c18Result, prima
 			}
 		}
 	}
-	if !c.Focus && !plan.cmdCfg {
+	if !c.Focus {
 		// the implementation's summary of the history, to be reproduced by the model
 		var inst []int
 		if res.hasValue {
@@ -1309,9 +1384,9 @@ func runC18(c *Cfg) {
 		go func() {
 			defer wg.Done()
 			for j := range jobs {
-				for pi, plan := range j.plans {
+				for _, plan := range j.plans {
 					ru, res := c18Execute(j.w, plan)
-					c18Judge(c, j.w, plan, ru, res, pi == 0)
+					c18Judge(c, j.w, plan, ru, res)
 				}
 			}
 		}()
@@ -1334,27 +1409,31 @@ func runC18(c *Cfg) {
 		if cyc {
 			c.Count("cyclic")
 		}
+		// every workflow is run under BOTH configurations — the default one and the one
+		// production uses (cmd/cue/cmd/custom.go, internal/task: Root + InferTasks +
+		// IgnoreConcrete) — with the same schedules kinds, model and predicates
 		var plans []*c18Plan
-		// schedules without failure
-		ns := c.Pick(3, 4)
-		for k := 0; k < ns; k++ {
-			plans = append(plans, c18Plan1(cr, w, 0))
-		}
-		if !cyc {
-			plans = append(plans, c18Plan1(cr, w, 1)) // one injected failure
-			if cr.Chance(1, 2) {
-				plans = append(plans, c18Plan1(cr, w, 1))
+		for _, prod := range []bool{false, true} {
+			first := len(plans)
+			ns := c.Pick(2, 3)
+			for k := 0; k < ns; k++ {
+				plans = append(plans, c18Plan1(cr, w, 0)) // schedules without failure
 			}
-			if cr.Chance(1, 3) {
-				plans = append(plans, c18Plan1(cr, w, 2)) // cancellation
+			if !cyc {
+				plans = append(plans, c18Plan1(cr, w, 1)) // one injected failure
+				if cr.Chance(1, 3) {
+					plans = append(plans, c18Plan1(cr, w, 1))
+				}
+				if cr.Chance(1, 3) {
+					plans = append(plans, c18Plan1(cr, w, 2)) // cancellation
+				}
+				if cr.Chance(1, 4) {
+					plans = append(plans, c18Plan1(cr, w, 3)) // sinks that do not fill
+				}
 			}
-			if cr.Chance(1, 4) {
-				plans = append(plans, c18Plan1(cr, w, 3)) // sinks that do not fill
-			}
-			if cr.Chance(1, 4) {
-				p := c18Plan1(cr, w, 0)
-				p.cmdCfg = true
-				plans = append(plans, p)
+			plans[first].primary = true
+			for _, p := range plans[first:] {
+				p.cmdCfg = prod
 			}
 		}
 		jobs <- job{w, plans}
